@@ -108,7 +108,7 @@ class AdnlWorld(HistoryWorld):
              'AES, SHA-2, X25519 and Ed25519 primitives are the real third-party ones (trusted)']
 
     def rule(self):
-        return ('channel: each run opens a channel in both directions between every pair of 2..3 peers whose channel keys are drawn through the entropy seam (uniform, all-zero, all-ones, low, high, '
+        return ('channel: each run opens a channel in both directions between every pair of 2..4 peers whose keys (one per channel end, or one long-term key per peer) are drawn through the entropy seam (uniform, all-zero, all-ones, low, high, '
                 'sparse, identical keys) and whose ids are natural, equal or adjacent; 3..24 messages (0..2000 bytes) are sent in seeded directions over a net that drops, duplicates, delays/reorders, '
                 'flips one bit or mis-routes; every arrival goes through the receiver glue. Intact arrivals at the addressee must be accepted and decrypt to the sent plaintext, whatever the order or '
                 'multiplicity; bytes 0..32 must be the key id the addressee expects and bytes 32..64 the SHA-256 of the plaintext; a damaged or mis-routed arrival may only be rejected or yield '
@@ -128,9 +128,9 @@ class AdnlWorld(HistoryWorld):
     # ------------------------------------------------------------------ config
     def make_config(self, rng, leg, run_index):
         if leg == 'channel':
-            return {'peers': rng.choice([2, 2, 2, 3]), 'entropy_seed': rng.getrandbits(64),
+            return {'peers': rng.choice([2, 2, 3, 3, 4]), 'entropy_seed': rng.getrandbits(64),
                     'entropy_mode': rng.choice(['uniform', 'uniform', 'uniform', 'zeros', 'ones', 'low', 'high', 'sparse', 'same']),
-                    'ids': rng.choice(['natural', 'natural', 'equal', 'adjacent', 'reversed']),
+                    'ids': rng.choice(['natural', 'natural', 'equal', 'adjacent', 'reversed']), 'keying': rng.choice(['per-pair', 'per-peer']),
                     'net': {'drop': rng.choice([0, 0.1, 0.3]), 'dup': rng.choice([0, 0.2, 0.5]), 'jitter': rng.choice([0, 3, 12]), 'flip': rng.choice([0, 0.15, 0.4])},
                     'misroute': rng.choice([0, 0, 0.2]), 'msgs': rng.choice([3, 6, 12, 24]), 'steps': 400}
         if leg == 'sign':
@@ -167,9 +167,15 @@ class AdnlWorld(HistoryWorld):
         n = cfg['peers']
         seam = EntropySeam(cfg['entropy_seed'], cfg['entropy_mode'])
         with patched(nacl.signing, 'random', seam):
-            # one channel key per ordered pair endpoint, as each side generates a fresh key per channel
-            st.ckey = {(i, j): lc.Client.generate_ed25519_private_key() for i in range(n) for j in range(n) if i != j}
-        if seam.calls != n * (n - 1):
+            if cfg.get('keying') == 'per-peer':
+                # one long-term key per peer, used towards every other peer (Client / Server used directly, as a lite-client does)
+                own = [lc.Client.generate_ed25519_private_key() for _ in range(n)]
+                st.ckey = {(i, j): own[i] for i in range(n) for j in range(n) if i != j}
+                ctx.probe('one-key-per-peer')
+            else:
+                # one channel key per ordered pair endpoint, as each side generates a fresh key per channel
+                st.ckey = {(i, j): lc.Client.generate_ed25519_private_key() for i in range(n) for j in range(n) if i != j}
+        if seam.calls not in (n, n * (n - 1)):
             raise AssertionError('entropy seam not reached')
         if cfg['entropy_mode'] != 'uniform':
             ctx.fault('biased-entropy-' + cfg['entropy_mode'])
